@@ -226,11 +226,13 @@ def reference(prog, final_inputs, requested=('a',), forms=None):
     return refeval.Ref(forms, list(requested), final_inputs).run()
 
 
-def schedules_for(first_result, cap=48):
+def schedules_for(first_result, cap=48, pairs=None):
     """all rank permutations of the names that were compared in some sort during
-    the natural-order run (connected components of the comparison graph)."""
-    sch = first_result.schedule
-    pairs = set(sch.compared) if sch is not None else set()
+    the natural-order run (connected components of the comparison graph).
+    pairs: explicit comparison graph (used when closing the graph over several runs)"""
+    if pairs is None:
+        sch = first_result.schedule
+        pairs = set(sch.compared) if sch is not None else set()
     if not pairs:
         return [], True
     # components
